@@ -39,6 +39,15 @@ def classify(case, detail):
     if clause == "planning_never_fails" and "failed to create planning paths, missing paths: [], has field waiting for dependency: true" in detail \
             and re.search(r'\(id \d+ \d+ \d+ "[^"]*\bkeyhop\b', case):
         return "key-hop-planning-paths"
+    # a @requires field comes back null because its input, @provided in one fragment of an abstract selection
+    # only, is sent as null for the sibling fragment
+    if clause == "data_equal" and re.search(r'\.rq\d+(_\d+)?: null vs (\\22|\\?")rq\d+\[', detail) \
+            and "(requires t)" in case and "(provides t)" in case and "(abstract t)" in case:
+        return "requires-input-provided-in-one-fragment"
+    # a subgraph error of an entity fetch that only a non-matching parent type condition asked for
+    if clause == "errors_iff" and "gateway=true reference=false" in detail and "(abstract t)" in case \
+            and "data equal; gateway error: Failed to fetch from Subgraph" in detail:
+        return "entity-fetch-ignores-parent-type-condition"
     return None
 
 
@@ -136,7 +145,8 @@ def run(chk):
     for f in glob.glob(os.path.join(rdir, "*.json")):
         os.remove(f)
     # recorded findings are not shrunk again on every run (their minimised cases live in corpus/C01)
-    skip = "conflict because they return conflicting types|not provided on this path|has field waiting for dependency"
+    skip = ("conflict because they return conflicting types|not provided on this path|has field waiting for dependency"
+            "|rq[0-9_]+: null vs|gateway errors=true reference errors=false")
     state, samples, allcases = {}, [], []
     corpus = os.path.join(vlib.ROOT, "corpus", "C01")
     if glob.glob(os.path.join(corpus, "*.json")):
